@@ -417,6 +417,69 @@ static void oscflip(void) {
   free(mut);
 }
 
+/* oscseq <secret> <salt> <idctx> <cid> <sid> <token> <type> <cseq> <sseq> <step>*
+ * several requests and responses on one token between the same two endpoints (no reset in
+ * between): Q- | Q0 | Q1 = request without Observe / Observe 0 / Observe 1, R<o><p> = response
+ * with(out) Observe, with(out) forced Partial IV.  See ocaml/d_oscore.ml. */
+static void oscseq(void) {
+  secspec_t s = { vtok[1], vtok[2], vtok[3] };
+  const char *cid = vtok[4], *sid = vtok[5];
+  size_t tl;
+  uint8_t *tokb = bytes_of_tok(vtok[6], &tl);
+  int type = atoi(vtok[7]);
+  uint64_t cseq = strtoull(vtok[8], NULL, 10), sseq = strtoull(vtok[9], NULL, 10);
+  if (!ep_setup(&ep_client, &s, cid, sid, cseq) || !ep_setup(&ep_server, &s, sid, cid, sseq)) {
+    puts("NOCTX");
+    free(tokb);
+    return;
+  }
+  for (int i = 10, k = 1; i < vntok; i++, k++) {
+    const char *st = vtok[i];
+    coap_pdu_t *pdu, *osc, *dec;
+    uint8_t *dg;
+    size_t n;
+    int r;
+    if (st[0] == 'Q') {
+      pdu = coap_pdu_init((coap_pdu_type_t)type, COAP_REQUEST_CODE_GET, (coap_mid_t)(100 + k), 0);
+      coap_add_token(pdu, tl, tokb);
+      if (st[1] == '0') coap_add_option(pdu, COAP_OPTION_OBSERVE, 0, NULL);
+      if (st[1] == '1') { uint8_t one = 1; coap_add_option(pdu, COAP_OPTION_OBSERVE, 1, &one); }
+      coap_add_option(pdu, COAP_OPTION_URI_PATH, 1, (const uint8_t *)"s");
+      osc = protect(&ep_client, pdu, 0);
+      coap_delete_pdu(pdu);
+      if (!osc) { fputs(" q=NONE", stdout); continue; }
+      dg = datagram_of(osc, &n);
+      coap_delete_pdu(osc);
+      fputs(" q=", stdout);
+      show_full(stdout, dg, n);
+      fputs(" dq=", stdout);
+      r = receive(&ep_server, dg, n, &dec);
+      show_receive(stdout, r, dec);
+      free(dg);
+    } else {
+      uint8_t pl[2] = { 'r', (uint8_t)('0' + k % 10) };
+      uint8_t ov = (uint8_t)k;
+      pdu = coap_pdu_init(COAP_MESSAGE_NON, COAP_RESPONSE_CODE(205), (coap_mid_t)(200 + k), 0);
+      coap_add_token(pdu, tl, tokb);
+      if (st[1] == '1') coap_add_option(pdu, COAP_OPTION_OBSERVE, 1, &ov);
+      coap_add_data(pdu, 2, pl);
+      osc = protect(&ep_server, pdu, st[2] == '1');
+      coap_delete_pdu(pdu);
+      if (!osc) { fputs(" r=NONE", stdout); continue; }
+      dg = datagram_of(osc, &n);
+      coap_delete_pdu(osc);
+      fputs(" r=", stdout);
+      show_full(stdout, dg, n);
+      fputs(" dr=", stdout);
+      r = receive(&ep_client, dg, n, &dec);
+      show_receive(stdout, r, dec);
+      free(dg);
+    }
+  }
+  fputc('\n', stdout);
+  free(tokb);
+}
+
 int main(void) {
   coap_startup();
   coap_set_log_level(getenv("VLOG") ? COAP_LOG_OSCORE : COAP_LOG_EMERG);
@@ -426,6 +489,7 @@ int main(void) {
     else if (!strcmp(vtok[0], "oscun")) oscun();
     else if (!strcmp(vtok[0], "oscflip")) oscflip();
     else if (!strcmp(vtok[0], "oscderive")) oscderive();
+    else if (!strcmp(vtok[0], "oscseq")) oscseq();
     else puts("ERROR unknown command");
     fflush(stdout);
   }
